@@ -1,5 +1,6 @@
 import OvniModel.Emu.Stream
 import OvniModel.Emu.Meta
+import OvniModel.Emu.MetaJson
 import OvniModel.Lemmas.StreamTotal
 import Drivers.Util
 
@@ -11,6 +12,7 @@ import Drivers.Util
   `guard <hex>`            `guarded 0|1` (the hypothesis of the `_partial` theorems)
   `ej <hex> <o1> <o2>`     emu_ev chained on two event offsets: `ej <is_jumbo cur> <is_jumbo fixed>`
   `meta …`                 metadata gates, see `metaLine`
+  `metaj …`                the same from the raw JSON bytes, see `metaJsonLine`
 
 `oob k` / `ub k`: the first access outside the buffer / the first signed
 overflow in `ovni_ev_size` happens during call number `k` (0-based) of
@@ -123,11 +125,8 @@ def parseMetas : Nat → List String → Option (List Ovni.Emu.Meta.Meta × List
 
 def clsName (c : Ovni.Emu.Meta.Cls) : String := (reprStr c).replace "Ovni.Emu.Meta.Cls." ""
 
-def metaLine (ws : List String) : String :=
-  match ws with
-  | n :: rest =>
-    match parseMetas (n.toNat?.getD 0) rest with
-    | some (ms, [evm]) =>
+/-- the decision of the emulator over the metadata records of the streams and the models whose events occur -/
+def metaVerdict (ms : List Ovni.Emu.Meta.Meta) (evm : String) : String :=
       match Ovni.Emu.Meta.checkTrace ms with
       | .error e => s!"meta reject {clsName e}"
       | .ok () =>
@@ -142,7 +141,30 @@ def metaLine (ws : List String) : String :=
             | .error e => some e | .ok () => none) with
           | some e => s!"meta reject {clsName e}"
           | none => "meta ok"
+
+def metaLine (ws : List String) : String :=
+  match ws with
+  | n :: rest =>
+    match parseMetas (n.toNat?.getD 0) rest with
+    | some (ms, [evm]) => metaVerdict ms evm
     | _ => "bad-line"
+  | _ => "bad-line"
+
+/-- `metaj <cast> <n> <hex of stream.json>*n <evmodels|->`: the same decision, the records
+    computed by the parson model from the raw JSON bytes (`Emu/MetaJson.lean`);
+    `meta unsup` = a document holds a number whose value the model does not compute. -/
+def metaJsonLine (ws : List String) : String :=
+  match ws with
+  | cast :: n :: rest =>
+    let k := n.toNat?.getD 0
+    if rest.length ≠ k + 1 then "bad-line"
+    else
+      match (rest.take k).mapM hexBytes with
+      | none => "bad-line"
+      | some texts =>
+        match texts.mapM (Ovni.Emu.Meta.metaOfText (cast = "1")) with
+        | none => "meta unsup"
+        | some ms => metaVerdict ms (rest.getD k "-")
   | _ => "bad-line"
 
 def step (ws : List String) : String :=
@@ -162,6 +184,7 @@ def step (ws : List String) : String :=
       s!"ej {b01 (emuEv (emuEv z g0 b a) g0 b c).isJumbo} {b01 (Fixed.emuEv (Fixed.emuEv z g0 b a) g0 b c).isJumbo}"
     | _, _, _ => "bad-line"
   | "meta" :: rest => metaLine rest
+  | "metaj" :: rest => metaJsonLine rest
   | _ => "bad-line"
 
 end Drivers.Stream
